@@ -169,41 +169,66 @@ func scripts(r *vh.RNG) {
 	}
 }
 
+type keyTriple struct {
+	u, c, h []byte
+	family  string
+}
+
 func pubkeys(r *vh.RNG) {
+	var keys []keyTriple
 	n := cfg.Scale(12, 80)
 	for i := 0; i < n; i++ {
 		u, c, h := al.RandomKey(r)
+		keys = append(keys, keyTriple{u, c, h, "random"})
+	}
+	// coordinates with a leading zero byte (serialisations must keep the 32-byte padding)
+	for i := 0; i < cfg.Scale(2, 6); i++ {
+		if u, c, h := al.FindKey(r, 20000, func(u, c, h []byte) bool { return u[1] == 0 }); u != nil {
+			keys = append(keys, keyTriple{u, c, h, "x-leading-zero"})
+		}
+		if u, c, h := al.FindKey(r, 20000, func(u, c, h []byte) bool { return u[33] == 0 }); u != nil {
+			keys = append(keys, keyTriple{u, c, h, "y-leading-zero"})
+		}
+	}
+	// compressed keys whose hex string is also a run of CashAddr symbols (no '1', no 'b'):
+	// the CashAddr attempts then fail at the checksum, not at the character stage
+	for i := 0; i < cfg.Scale(2, 6); i++ {
+		if u, c, h := al.FindKey(r, 400000, func(u, c, h []byte) bool { return al.OverCashCharset(c) }); u != nil {
+			keys = append(keys, keyTriple{u, c, h, "hex-over-cash-charset"})
+		}
+	}
+	for i, k := range keys {
 		net := i % len(al.Nets)
-		for fi, ser := range [][]byte{u, c, h} {
-			corr := i < cfg.Scale(6, 20)
+		for fi, ser := range [][]byte{k.u, k.c, k.h} {
+			corr := i < cfg.Scale(6, 20) || (k.family != "random" && (fi == 1 || i%2 == 0))
 			var o al.Obs
 			if corr {
-				_, o = ctx.NewCase(net, al.CtorPubKey, ser, "pubkey")
+				_, o = ctx.NewCase(net, al.CtorPubKey, ser, "pubkey:"+k.family)
 			} else {
 				a, err, _ := al.Construct(al.CtorPubKey, ser, net)
 				o = al.Observe(a, err)
 			}
-			rep.Count("pubkey:construct", fmt.Sprintf("k%x", ser), true)
+			rep.Count("pubkey:construct:"+k.family, fmt.Sprintf("k%x", ser), true)
 			wantFmt := []int{0, 1, 2}[fi]
 			hx := hex.EncodeToString(ser)
 			if o.Cls != 0 || o.Fmt != wantFmt || !bytes.Equal(o.Payload, ser) || o.Str != hx {
 				rep.Violate("C01:pubkey:construct", "NewAddressPubKey does not preserve the serialisation (format, ScriptAddress, String)",
-					map[string]interface{}{"serialized": hx, "net": al.Nets[net].Name, "observed": o.JSON()})
+					map[string]interface{}{"serialized": hx, "family": k.family, "net": al.Nets[net].Name, "observed": o.JSON()})
 				continue
 			}
 			if want := al.RefBase58Check(al.Nets[net].P.LegacyPubKeyHashAddrID, al.Hash160(ser)); o.Enc != want {
 				rep.Violate("C01:spec:PubKey", "EncodeAddress() of a public key is not Base58Check(pkh id, HASH160(serialisation))",
-					map[string]interface{}{"serialized": hx, "net": al.Nets[net].Name, "encode_address": o.Enc, "specification": want})
+					map[string]interface{}{"serialized": hx, "family": k.family, "net": al.Nets[net].Name, "encode_address": o.Enc, "specification": want})
 			}
 			for _, s := range []string{hx, al.AsciiUpper(hx)} {
 				_, got := al.Decode(s, net)
-				rep.Count("decode:PubKey", "d"+s, true)
+				rep.Count("decode:PubKey:"+k.family, "d"+s, true)
 				if corr {
-					ctx.DecCase(net, s, "roundtrip:PubKey")
+					ctx.DecCase(net, s, "roundtrip:PubKey:"+k.family)
 				}
 				if got.Cls != 0 || got.Kind != 5 || got.Fmt != wantFmt || !bytes.Equal(got.Payload, ser) || got.Str != hx || got.Enc != o.Enc || !got.Nets[net] {
 					rep.Violate("C01:roundtrip:PubKey", "DecodeAddress(String(pubkey address)) != the address",
-						map[string]interface{}{"serialized": hx, "string": s, "net": al.Nets[net].Name, "constructed": o.JSON(), "decoded": got.JSON()})
+						map[string]interface{}{"serialized": hx, "family": k.family, "string": s, "net": al.Nets[net].Name, "constructed": o.JSON(), "decoded": got.JSON()})
 				}
 			}
 		}
